@@ -49,6 +49,19 @@ def run(ctx):
             cases.append({'op': 'eq', 'lang': lang, 'f': f, 'g': f, 'style': 'obj', 'style2': 'parsed'})
         for b in (True, False):
             cases.append({'op': 'bool', 'lang': lang, 'b': b})
+        # confusable leaves: constants vs atoms whose names are case variants of them, near-identical names
+        conf = [(('true',), ('ap', 'True')), (('false',), ('ap', 'False')), (('true',), ('ap', 'TRUE')), (('ap', 'p'), ('ap', 'P')),
+                (('ap', 'a'), ('ap', 'a_')), (('false',), ('ap', 'false_')), (('ap', 'True'), ('ap', 'true_')), (('true',), ('false',))]
+        for x, y in conf:
+            ctxs = [lambda z: z, lambda z: ('not', z), lambda z: ('and', z, ('ap', 'p')), lambda z: ('or', ('ap', 'q_1'), z, z)]
+            if lang != 'PL' and lang != 'CTL':
+                ctxs.append(lambda z: ('X', z))
+            if lang == 'CTL':
+                ctxs.append(lambda z: ('A', ('G', z)))
+            for cx in ctxs:
+                for st1, st2 in (('obj', 'obj'), ('obj', 'raw'), ('raw', 'obj')):
+                    cases.append({'op': 'eq', 'lang': lang, 'f': cx(x), 'g': cx(y), 'style': st1, 'style2': st2})
+                    cases.append({'op': 'eq', 'lang': lang, 'f': cx(y), 'g': cx(x), 'style': st1, 'style2': st2})
     keep = synfam.run_events(ctx, cases)
     for c, ev in keep:
         if ev['op'] == 'eq' and ev['f'] != ev['g']:
